@@ -2,7 +2,7 @@ INIT Init
 NEXT Next
 CONSTANTS
   NSpecies = 4
-  Coefs = {1, 2}
+  Coefs = {1, 2, 10}
   MaxReac = 2
   MaxProd = 2
   Kinds = {"Reaction", "Equilibrium"}
